@@ -310,6 +310,12 @@ class World:
                         except OSError:
                             pass
             else:
+                try:
+                    kvdoubles.stop_writer(self.storage.writer_thread)
+                except BaseException:
+                    pass
+                for st in getattr(self, "_extra_storages", []):
+                    pass
                 if remove:
                     fakelmdb._ENVS.pop(self.path, None)
         finally:
